@@ -155,3 +155,56 @@ Fixpoint lhist (prog : list linstr) (regs : list (list Z)) : outcome (list (list
   | [] => Ok regs
   | ins :: r => obind (lstep regs ins) (lhist r)
   end.
+
+(* ---- "bhist": histories over big-integer registers in which the caller may overwrite a value
+   it was given ("scribble").  Every register is a list of integers (single results are
+   one-element lists).  Values are immutable here: scribbling changes that one element of that
+   one register and nothing else; every later call returns its mathematical value. *)
+Inductive binstr :=
+| BLit (x : Z) | BPow2 (e : N) | BOnes (n : N) | BMask (l h : N)
+| BExtract (a k : nat) (l h : N) | BMinMax (a i b j : nat) | BPow2UpTo (a k : nat) | BUint64s (a k : nat)
+| BUnique (a : nat) | BMerge (a b : nat) | BConcat (a b : nat)
+| BScribble (a k : nat) (mode : N).
+
+(* the caller's in-place writes: r.Add(r,1), r.Lsh(r,8), r.SetInt64(0), r.Not(r) *)
+Definition scribble_val (mode : N) (x : Z) : Z :=
+  if (mode =? 0)%N then x + 1 else if (mode =? 1)%N then Z.shiftl x 8
+  else if (mode =? 2)%N then 0 else Z.lnot x.
+
+Definition reg_elem (regs : list (list Z)) (a k : nat) : option Z :=
+  match nth_error regs a with Some u => nth_error u k | None => None end.
+
+Definition bstep (regs : list (list Z)) (ins : binstr) : outcome (list (list Z)) :=
+  let bad := Err ($"badreg") in
+  match ins with
+  | BLit x => Ok (regs ++ [[x]])
+  | BPow2 e => Ok (regs ++ [[pow2 e]])
+  | BOnes n => Ok (regs ++ [[ones n]])
+  | BMask l h => Ok (regs ++ [[mask l h]])
+  | BExtract a k l h => match reg_elem regs a k with Some x => Ok (regs ++ [[extract x l h]]) | None => bad end
+  | BMinMax a i b j => match reg_elem regs a i, reg_elem regs b j with
+                       | Some x, Some y => let '(mn, mx) := min_max x y in Ok (regs ++ [[mn; mx]])
+                       | _, _ => bad end
+  | BPow2UpTo a k => match reg_elem regs a k with Some x => Ok (regs ++ [pow2_upto x]) | None => bad end
+  | BUint64s a k => match reg_elem regs a k with
+                    | Some x => if x <? 0 then Err ($"negative")
+                                else obind (uint64s x) (fun ws => Ok (regs ++ [ws]))
+                    | None => bad end
+  | BUnique a => match nth_error regs a with Some u => Ok (regs ++ [unique u]) | None => bad end
+  | BMerge a b => match nth_error regs a, nth_error regs b with
+                  | Some u, Some v => Ok (regs ++ [merge_unique u v]) | _, _ => bad end
+  | BConcat a b => match nth_error regs a, nth_error regs b with
+                   | Some u, Some v => Ok (regs ++ [concat u v]) | _, _ => bad end
+  | BScribble a k m => match nth_error regs a with
+                       | Some u => match nth_error u k with
+                                   | Some x => let v := scribble_val m x in
+                                               Ok (replace_nth a (replace_nth k v u) regs ++ [[v]])
+                                   | None => bad end
+                       | None => bad end
+  end.
+
+Fixpoint bhist (prog : list binstr) (regs : list (list Z)) : outcome (list (list Z)) :=
+  match prog with
+  | [] => Ok regs
+  | ins :: r => obind (bstep regs ins) (bhist r)
+  end.
